@@ -46,6 +46,10 @@ func desiredResource(gvk schema.GroupVersionKind, param string) *fnv1.Resource {
 // wantB says whether the scripted function still desires resource b.
 var wantB = true
 
+// nameA makes the scripted function set metadata.name of resource a itself,
+// derived from the XR's spec.param (so it changes when that field is edited).
+var nameA = false
+
 // fn is the scripted composition function: desired = {a: ResA, b: ResB}
 // (b only while wantB).
 func fn(_ context.Context, _ string, req *fnv1.RunFunctionRequest) (*fnv1.RunFunctionResponse, error) {
@@ -61,6 +65,9 @@ func fn(_ context.Context, _ string, req *fnv1.RunFunctionRequest) (*fnv1.RunFun
 			Composite: &fnv1.Resource{Resource: xr},
 			Resources: func() map[string]*fnv1.Resource {
 				m := map[string]*fnv1.Resource{"a": desiredResource(xrh.ResA, param)}
+				if nameA {
+					m["a"].Resource.Fields["metadata"] = structpb.NewStructValue(&structpb.Struct{Fields: map[string]*structpb.Value{"name": structpb.NewStringValue("explicit-" + param)}})
+				}
 				if wantB {
 					m["b"] = desiredResource(xrh.ResB, param)
 				}
@@ -72,7 +79,11 @@ func fn(_ context.Context, _ string, req *fnv1.RunFunctionRequest) (*fnv1.RunFun
 }
 
 type scenario struct {
-	composer string // pipeline | pt
+	composer string // pipeline | pipeline-named (the function names resource a itself, after an XR field) | pt
+	// cache "miss": during the faulty window every Get of a composed kind
+	// misses the controller's cache (the informer has not caught up) and is
+	// answered by the API server only through the uncached fallback.
+	cache string
 	initial  string // fresh | steady | b-deleted | param-changed | a-ctrl-stripped
 	order    int
 	window   int
@@ -81,8 +92,14 @@ type scenario struct {
 }
 
 func (sc scenario) name() string {
-	return fmt.Sprintf("%s/%s/order%d/w%d/f%d/reads=%v", sc.composer, sc.initial, sc.order, sc.window, sc.bound, sc.reads)
+	n := fmt.Sprintf("%s/%s/order%d/w%d/f%d/reads=%v", sc.composer, sc.initial, sc.order, sc.window, sc.bound, sc.reads)
+	if sc.cache != "" {
+		n += "/cache=" + sc.cache
+	}
+	return n
 }
+
+func (sc scenario) pipeline() bool { return strings.HasPrefix(sc.composer, "pipeline") }
 
 type world struct {
 	s     *simkube.Store
@@ -99,7 +116,7 @@ func setup(r *explore.Run, sc scenario) *world {
 	w := &world{s: s, xrd: xrh.XRD(), names: map[string]string{}, r: r}
 	s.Seed(w.xrd)
 	var comp *v1.Composition
-	if sc.composer == "pipeline" {
+	if sc.pipeline() {
 		comp = xrh.PipelineComposition("comp", "step1")
 	} else {
 		from := "spec.param"
@@ -123,7 +140,7 @@ func TestCheck(t *testing.T) {
 	rep := report.New("C01", "fault_enumeration")
 	rep.Meta(
 		"Executions are histories of real XR reconciles over simkube: every API call (writes, and reads where noted) issued in the first W reconciles is a fault point with outcomes {ok, error-before, conflict, error-after, crash-before, crash-after}; all histories with <= F deviations are enumerated by DFS, each continued by fault-free reconciles to quiescence. A case is non-trivial when at least one fault was injected and it changed the sequence of effective writes (distinct = distinct write-sequence hash).",
-		[]string{"simkube models the API server (conformance tests in h/simkube)", "reconciles are triggered one at a time (no two reconciles of the same XR run concurrently, as controller-runtime guarantees)", "composition fixed: function returns desired {a,b}; P&T templates named {a,b}"},
+		[]string{"simkube models the API server (conformance tests in h/simkube)", "reconciles are triggered one at a time (no two reconciles of the same XR run concurrently, as controller-runtime guarantees)", "composition fixed: function returns desired {a,b} (variant pipeline-named: it also sets metadata.name of a from an XR field); P&T templates named {a,b}", "cache=miss scenarios: every Get of a composed kind misses the controller cache during the faulty window (served only by the uncached fallback), then the cache catches up"},
 		[]string{"simkube", "structured-merge-diff (real)", "evanphx/json-patch (real)"},
 	)
 	var scs []scenario
@@ -150,6 +167,16 @@ func TestCheck(t *testing.T) {
 		}
 		rep.Bound("faulty_reconcile_window", 2)
 		rep.Bound("max_deviations", 2)
+	}
+	// The function names a resource itself; composed kinds missing from the
+	// controller's cache during the faulty window.
+	for _, in := range []string{"fresh", "steady", "param-changed"} {
+		scs = append(scs, scenario{composer: "pipeline-named", initial: in, order: 0, window: 2, bound: 1, reads: false})
+	}
+	for _, c := range composers {
+		for _, in := range []string{"steady", "param-changed", "b-deleted"} {
+			scs = append(scs, scenario{composer: c, initial: in, order: 0, window: 2, bound: 1, reads: false, cache: "miss"})
+		}
 	}
 	rep.Bound("quiescence_horizon", horizon)
 	var list []report.Scenario
@@ -182,6 +209,7 @@ func body(r *explore.Run, sc scenario, rep *report.R) {
 		memos[sc.name()] = m
 	}
 	wantB = true
+	nameA = sc.composer == "pipeline-named"
 	w := setup(r, sc)
 	if m.prepared != nil {
 		w.s = m.prepared.Clone()
@@ -192,8 +220,9 @@ func body(r *explore.Run, sc scenario, rep *report.R) {
 	}
 	s := w.s
 	xrc := s.Client("xr")
+	lagging := &xrh.MissingCache{Client: xrc, Kinds: map[string]bool{}}
 	mk := func() *xrReconciler {
-		return &xrReconciler{rec: xrh.NewXRReconciler(w.xrd, xrh.XROptions{Cached: xrc, Uncached: xrc, Runner: xrh.FunctionRunner(fn)})}
+		return &xrReconciler{rec: xrh.NewXRReconciler(w.xrd, xrh.XROptions{Cached: lagging, Uncached: xrc, Runner: xrh.FunctionRunner(fn)})}
 	}
 	rec := mk()
 	nn := types.NamespacedName{Name: "xr1"}
@@ -247,6 +276,9 @@ func body(r *explore.Run, sc scenario, rep *report.R) {
 	logStart := len(s.Log)
 
 	// --- faulty window ---
+	if sc.cache == "miss" {
+		lagging.Kinds = map[string]bool{xrh.ResA.Kind: true, xrh.ResB.Kind: true}
+	}
 	for i := 0; i < sc.window; i++ {
 		r.Seen(report.Hash("w", i, s.Canonical(), w.namesKey()))
 		w.inj.Armed = true
@@ -266,6 +298,7 @@ func body(r *explore.Run, sc scenario, rep *report.R) {
 			_ = unstructured.SetNestedField(u.Object, "p1", "spec", "param")
 		})
 	}
+	lagging.Kinds = map[string]bool{} // the cache has caught up
 	// --- fault-free continuation to quiescence (memoised per state: the
 	// continuation is a deterministic function of the store) ---
 	contKey := report.Hash(s.Canonical(), w.namesKey())
@@ -286,7 +319,7 @@ func body(r *explore.Run, sc scenario, rep *report.R) {
 		got[o.GetAnnotations()["crossplane.io/composition-resource-name"]] = o.GetKind() + "/" + o.GetName()
 	}
 	want := []string{"a", "b"}
-	if !wantB && sc.composer == "pipeline" {
+	if !wantB && sc.pipeline() {
 		want = []string{"a"}
 	}
 	for _, n := range want {
